@@ -564,7 +564,9 @@ func (n *Node) ConnectProduced(b *Built) error {
 // Deliver hands a network block to the chain service (validator path).
 func (n *Node) Deliver(b *types.Block) error {
 	n.Focus()
-	return n.CS.VerifAddBlock(CloneBlock(b), nil, types.PeerID("peer"))
+	err := n.CS.VerifAddBlock(CloneBlock(b), nil, types.PeerID("peer"))
+	n.CS.VerifQuiesce()
+	return err
 }
 
 // CloneBlock deep-copies a block (a node must never share mutable block objects
